@@ -274,6 +274,19 @@ def reflect(repo: str) -> dict:
     if len(subs) != 1:
         raise Untranslatable(f'expected one raise for an unknown OPEN parameter in Capabilities.unpack, found {len(subs)}')
     out['UNKNOWN_PARAM_SUB'] = subs[0]
+    # which octet selects the RFC 9072 extended encoding (ast: the test that guards `decoder = _extended_type_length`)
+    sel = []
+    for n in ast.walk(ctree):
+        if isinstance(n, ast.If) and any('_extended_type_length' in ast.unparse(x) and isinstance(x, ast.Assign) for x in ast.walk(n)):
+            sel.append(ast.unparse(n.test).replace('(', '').replace(')', '').replace(' ', ''))
+    old_tests = {'option_len==Capabilities.EXTENDED_LENGTH', 'option_type==Capabilities.EXTENDED_LENGTH'}
+    new_test = 'option_len!=0andlendata>=4anddata[1]==Capabilities.EXTENDED_LENGTH'
+    if set(sel) == old_tests:
+        out['EXT_BY_TYPE_OCTET'] = False      # length octet 255 (needs 4 octets), then type octet 255
+    elif sel == [new_test]:
+        out['EXT_BY_TYPE_OCTET'] = True       # type octet 255 whatever the non-zero length octet (RFC 9072 2)
+    else:
+        raise Untranslatable(f'Capabilities.unpack: unrecognised selection of the extended encoding: {sel}')
     # AIGP (RFC 7311): the length of the AIGP TLV and the smallest TLV the walk of from_packet accepts
     from exabgp.bgp.message.update.attribute.aigp import AIGPBase
 
@@ -324,6 +337,8 @@ def generate(repo: str) -> str:
     for k in ('OPEN_MIN', 'OPEN_FIXED', 'BGP_4', 'EXTENDED_LENGTH', 'P_AUTH', 'P_CAPS', 'MIN_PARAM', 'MIN_EXT_PARAM',
               'NOTIF_HEADER', 'SHUT_MAX', 'UPD_HDR', 'UPD_WOFF', 'EOR4', 'EORP', 'AIGP_TLV_LENGTH', 'AIGP_TLV_HDR', 'AIGP_TLV_TYPE', 'UNKNOWN_PARAM_SUB'):
         L.append(f'Definition {k} : Z := {rf[k]}.')
+    L.append('(* RFC 9072 extended optional parameters: true = selected by the type octet alone (length octet non zero), false = length octet 255 first *)')
+    L.append(f'Definition EXT_BY_TYPE_OCTET : bool := {"true" if rf["EXT_BY_TYPE_OCTET"] else "false"}.')
     L.append('Definition EOR_PFX : list Z := [' + '; '.join(str(b) for b in rf['EOR_PREFIX']) + '].')
     return '\n'.join(L) + '\n'
 
